@@ -43,6 +43,16 @@ def gen_case(rs, tier):
         d = gen._gen_derived(rng, cfg, factors, 0)
         if d is not None:
             factors.append(d)
+    tr_id = None
+    if W.stream(rs, "uncrossed-transition").random() < 0.3:
+        # a Transition factor over the first basic factor that no block crosses: under POST_PREAMBLE alignment such a factor
+        # decides a single-crossing block's preamble, so the block's alignment attribute matters
+        names = [n_ for n_, _ in factors[0]["levels"]]
+        tr_id = "dT"
+        factors.append({"id": tr_id, "kind": "derived", "name": "TR", "window": {"kind": "transition", "width": 2, "stride": 1, "start": 1},
+                        "args": [factors[0]["id"]],
+                        "levels": [{"name": "same", "weight": 1, "table": [[[a, a]] for a in names]},
+                                   {"name": "diff", "weight": 1, "table": [[[a, b_]] for a in names for b_ in names if a != b_]}]})
     basic_ids = [f["id"] for f in factors if f["kind"] == "basic"]
     cons = []
     for ci in range(rng.randint(1, 3)):
@@ -67,7 +77,7 @@ def gen_case(rs, tier):
             cs_x = [dast.clone(c) for c in cons if c["target"][0] == fid and hrng.random() < 0.5 and c["kind"] != "exclude"]
             if hrng.random() < 0.5:
                 cs_x.append({"id": "mt" + tag, "kind": "mintrials", "n": hrng.choice([3, 4, 6])})
-            aux[tag] = {"kind": "cross", "bid": tag, "design": [fid], "crossing": [fid], "constraints": cs_x, "rcc": True}
+            aux[tag] = {"kind": "cross", "bid": tag, "design": [fid] + ([tr_id] if tr_id and tag == "O" else []), "crossing": [fid], "constraints": cs_x, "rcc": True}
         # a second inner block of another length: the same outer block nested around inner runs of different lengths
         aux["I2"] = {"kind": "cross", "bid": "I2", "design": [i], "crossing": [i],
                      "constraints": [{"id": "mtI2", "kind": "mintrials", "n": len(factors[1]["levels"]) + hrng.choice([1, 2, 3])}], "rcc": True}
@@ -108,7 +118,7 @@ def gen_case(rs, tier):
                 b2["constraints"] = [c for c in b2["constraints"] if c["kind"] != "exclude"]
                 b2["rcc"] = True
             b = {"kind": "merge", "blocks": [b, b2], "constraints": [dast.clone(c) for c in shared_cons if hrng.random() < 0.3],
-                 "mode": hrng.choice(["repeat", "weight"]), "alignment": None}
+                 "mode": hrng.choice(["repeat", "weight"]), "alignment": W.stream(rs, "merge-align-%d" % bi).choice([None, None, "post preamble", "parallel start"])}
         elif shape < 0.70 and len(basic_ids) >= 2:
             cr2 = [hrng.choice(basic_ids)]
             b = {"kind": "multicross", "design": design, "crossings": [crossing, cr2] if cr2 != crossing else [crossing, [basic_ids[0]] if crossing != [basic_ids[0]] else [basic_ids[1]]],
@@ -140,7 +150,8 @@ def gen_case(rs, tier):
                 pair = [dast.clone(aux[X]), dast.clone(other)]
                 if hrng.random() < 0.5:
                     pair.reverse()
-                return {"kind": "merge", "blocks": pair, "constraints": [], "mode": hrng.choice(["repeat", "weight"]), "alignment": None}
+                return {"kind": "merge", "blocks": pair, "constraints": [], "mode": hrng.choice(["repeat", "weight"]),
+                        "alignment": W.stream(rs, "story-align-%d" % hrng.randrange(10 ** 6)).choice([None, "post preamble", "post preamble", "parallel start"]) if tr_id else None}
             inner = aux[X] if X != "O" else aux[hrng.choice(inners)]
             return {"kind": "nest", "outer": dast.clone(aux["O"]), "inner": dast.clone(inner), "constraints": [], "alignment": None}
         kinds_ = ["alone", "repeat", "merge", "nest", "nest"]
